@@ -187,6 +187,10 @@ def handle (op : String) (args : List String) : Option String :=
     match ← stmtOf s with
     | ⟨_, some q⟩ => pure (toString (Match.patMatch q.ast (generalise q.ast (← sigmaOf σ))))
     | _ => pure "err"
+  | "matchtree", [pt, s] => do
+    match treeOfToken pt, ← stmtOf s with
+    | some p, ⟨_, some q⟩ => pure (toString (Match.patMatch q.ast p))
+    | _, _ => pure "err"
   | "tables", n :: rest => do
     let n ← n.toNat?
     let ts ← (rest.take n).mapM txt
